@@ -75,23 +75,60 @@ def _chunk(args):
     return out
 
 
+def _chunk_chain(args):
+    """C11: callers that re-request their key in the very step in which they are answered (monitor only)."""
+    prop, seed0, count = args
+    logging.disable(logging.CRITICAL)
+    out = Outcome()
+    for i in range(count):
+        rng = random.Random((seed0 << 20) + 700000 + i)
+        cfg, callers, plan = B.gen_chain(rng)
+        case = {'chain': True, 'cfg': cfg, 'callers': callers, 'plan': plan}
+        mark(case)
+        out.evaluations += 1
+        res, batches = B.run_chain(cfg, callers, plan)
+        for (p, kind, detail) in B.monitor_chain(cfg, callers, res, batches):
+            out.concrete.append({'case': case, 'what': f'{kind}: {detail}', 'observed': [res, batches],
+                                 'signature': {'kind': kind}})
+        out.traces_validated += 1
+        out.fingerprints.add(fingerprint(case))
+        out.count('chain:ret=%d' % cfg['ret'])
+        out.count('chain:requests', sum(len(v) for v in res.values()))
+    return out
+
+
+def _dispatch(args):
+    if args[0] == 'chain':
+        return _chunk_chain(args[1:])
+    return _chunk(args)
+
+
 def make(prop, flavor, quick_n, thorough_n):
     def run(ctx):
         n = quick_n if ctx.quick else thorough_n
         workers = 4 if ctx.quick else ctx.workers
         per = max(1, n // (workers * 2))
         chunks = [(prop, flavor, ctx.seed * 1000 + k, per, True) for k in range(max(1, n // per))]
-        return run_chunks(_chunk, chunks, workers, limit_s=60 if ctx.quick else 900)
+        if prop == 'C11':
+            chunks += [('chain', prop, ctx.seed * 1000 + k, 100 if ctx.quick else 3000) for k in range(workers)]
+        return run_chunks(_dispatch, chunks, workers, limit_s=60 if ctx.quick else 900)
 
     def search(ctx, outcome):
         # more programs of the property's own flavour, monitor on every one
         chunks = [(prop, flavor, (ctx.seed + 7) * 1000 + 500 + k, 400, False) for k in range(8)]
-        out = run_chunks(_chunk, chunks, ctx.workers, limit_s=60)
+        if prop == 'C11':
+            chunks += [('chain', prop, (ctx.seed + 7) * 1000 + 600 + k, 300) for k in range(4)]
+        out = run_chunks(_dispatch, chunks, ctx.workers, limit_s=60)
         out.diffs = []
         return out
 
     def replay(ctx, payload):
         case = payload.get('case') or (payload.get('first_differing_case') or {}).get('case')
+        if case.get('chain'):
+            res, batches = B.run_chain(case['cfg'], case['callers'], case['plan'])
+            bad = B.monitor_chain(case['cfg'], case['callers'], res, batches)
+            return {'case': case, 'requests': {str(k): v for k, v in res.items()}, 'batches': batches,
+                    'monitor': bad, 'fails': bool(bad)}
         cfg, plan = case['cfg'], case['plan']
         ins = [tuple(i) for i in case['ins']]
         evs = B.run_real(cfg, ins, plan)
